@@ -508,8 +508,9 @@ func run(r *vrt.Run) {
 	if r.Race() {
 		n = r.N(600, 30000)
 	}
-	gmps := []int{1, 2, 16}
 	orig := runtime.GOMAXPROCS(0)
+	// phases {1, 2, 16}; the top phase follows the environment when that is throttled
+	gmps := []int{1, 2, min(16, max(orig, 4))}
 	interleavings := map[uint64]struct{}{}
 	var ilMu sync.Mutex
 	per := n / len(gmps)
